@@ -58,12 +58,13 @@ def solve_ladder(build, timeout_ms):
     res = solve(build({}), timeout_ms)
     res['ladder'] = 'exact'
     if res['verdict'] == 'unknown':
-        res2 = solve(build({'abstract_order': True}), timeout_ms)
-        if res2['verdict'] == 'unsat':
-            res2['ladder'] = 'abstract-order'
-            res2['ms'] += res['ms']
-            return res2
-        res['ms'] += res2['ms']
+        for kw in ({'abstract_order': True}, {'abstract_order': True, 'abstract_mul': True}):
+            res2 = solve(build(kw), timeout_ms)
+            res['ms'] += res2['ms']
+            if res2['verdict'] == 'unsat':
+                res2['ladder'] = '+'.join(sorted(kw))
+                res2['ms'] = res['ms']
+                return res2
     return res
 
 
@@ -91,7 +92,7 @@ def solve_equiv(build, timeout_ms, ladder=({}, {'abstract_order': True})):
                 nq += 1
                 total += res['ms']
                 if res['verdict'] == 'sat':
-                    if 'abstract_order' in kw:   # a model of an abstraction is not a counterexample
+                    if 'abstract_order' in kw or 'abstract_mul' in kw:   # a model of an abstraction is not a counterexample
                         continue
                     res['ms'] = total
                     res['queries'] = nq
